@@ -126,19 +126,19 @@ package values
 
 // ---- sorting helpers (C15, C03): they permute the given slice in place and touch nothing else
 //@ func values.Sort
-//@ props C15 C03 C01
+//@ props C15 C03 C04 C01
 //@ panics nothing
 //@ assigns S$Val
 //@ ensures only: onlybase("S$Val", data)
 
 //@ func values.SortByProperty
-//@ props C15 C03 C01
+//@ props C15 C03 C04 C01
 //@ panics nothing
 //@ assigns S$Val
 //@ ensures only: onlybase("S$Val", data)
 
 //@ func (values.genericSortable).Swap
-//@ props C15 C03 C01
+//@ props C15 C03 C04 C01
 //@ panics nothing
 //@ assigns S$Val
 //@ requires inrange: 0 <= i && i < len(s) && 0 <= j && j < len(s)
@@ -152,7 +152,7 @@ package values
 //@ ensures def: result == len(s)
 
 //@ func (values.sortableByProperty).Swap
-//@ props C15 C03 C01
+//@ props C15 C03 C04 C01
 //@ panics nothing
 //@ assigns S$Val
 //@ requires inrange: 0 <= i && i < len(s.data) && 0 <= j && j < len(s.data)
